@@ -98,6 +98,11 @@ TEXT = {
         note="Sequence length bound 5/7. Close without RemoveEventHandlers and double Close are API misuse and excluded. Lock-level interleavings are not enumerated (stated in DESIGN.md).",
         technique="bounded-exhaustive operation-sequence enumeration against a reference model (explicit-state), supplementary race-detector pass",
     ),
+    "C20": dict(
+        level="Explicit-state model checking of the hosting layer: breadth-first search over event sequences on the real reconcilers of both controller kinds, state deduplicated by (stored spec, running spec) per name - the single-name search closes (fixpoint), so event sequences of any length are covered for one name; after every event the running instances are compared with the reference model and probed with a parent event for wake-up and hook isolation.",
+        note="Behaviour build only (no worker goroutines). Two-name searches are depth-capped and reported as such.",
+        technique="explicit-state BFS over the real reconcile function with a reference model (fixpoint for one name)",
+    ),
 }
 
 PENDING_REASON = "check not built yet in this session (planned in DESIGN.md §4); no claim is made until its check runs clean on the unchanged tree"
